@@ -226,6 +226,11 @@ def run(ctx):
         roots = [fc] if fc.cls is ci else []
         if not roots:
             continue
+        # the size of the assembled system is an input too (Lagrange multipliers: number of conditions and of Dirichlet dofs)
+        for nm in ("Assembly", simu.mangle("__Get_Ndof"), "_Bc_Lagrange_dim"):
+            g = repo.lookup_method(ci, nm)
+            if g is not None:
+                roots.append(g)
         init = ci.methods.get("__init__")
         if init is not None and any(isinstance(n, ast.Call) and (dotted(n.func) or "").endswith("_Solver_Set_Newton_Raphson_Algorithm") for n in ast.walk(init.node)) and ci.name != "WeakForms":
             r3b.note(f"{ci.name}: Newton-driven (re-assembled at every iteration): assembled matrices are never reused across changes")
@@ -314,6 +319,7 @@ def run(ctx):
         else:
             r5.fail(f.qualname, "flag", f.file, f.lineno, f"{ci.name}.Get_K_C_M_F", "does not (assemble when the flag is set, then clear it)")
     staggered_flags_rule(ctx, simu)
+    mesh_index_rule(ctx)
 
 
 def staggered_flags_rule(ctx, simu):
@@ -437,3 +443,46 @@ def staggered_flags_rule(ctx, simu):
                 else:
                     r.fail(f.qualname, f"stale:{q}-after-{p}", f.file, st.lineno, f"{ci.name}.{nm}",
                            f"`{norm_text(st)[:80]}` replaces the {p} field but a path leaves {nm} without lowering self.{flag.split('__')[-1]}: the memoised {q} system (assembled from the old {p} field) is served by Get_K_C_M_F")
+
+
+def mesh_index_rule(ctx, rid="R14.17"):
+    """After `simu.mesh = newMesh` the current-mesh index designates the new mesh in the mesh history, whatever iteration
+    (hence whatever earlier mesh) was restored before: interpreted on a history of three meshes with the first one
+    current."""
+    from ..xeval import Interp, XObj, XRaise, Sink, Opaque
+
+    repo = ctx.repo
+    r = ctx.rule(rid, "mesh setter: afterwards listMesh[indexMesh] is the assigned mesh, also when an earlier mesh of the history was current", min_instances=2)
+    simu = repo.cls(SIMU)
+    f = simu.setters["mesh"]
+    mcls = repo.cls(MESH)
+    for current in (2, 0):
+        r.instance(fn=f.qualname + ".setter")
+        observed = []
+        meshes = [XObj(mcls, {"_ResetMatrix": lambda: None, "_Add_observer": (lambda o, k=k: observed.append((k, o))), "tag": k}) for k in range(4)]
+        attrs = {
+            simu.mangle("__listMesh"): list(meshes[:3]),
+            simu.mangle("__indexMesh"): current,
+            simu.mangle("__NindexMesh"): 2,
+            simu.mangle("__mesh"): meshes[current],
+            "Need_Update": lambda *a, **k: None,
+            "Bc_Init": lambda *a, **k: None,
+            simu.mangle("__Init_Sols_n"): lambda *a, **k: None,
+            "_Check_dim_mesh_material": lambda *a, **k: None,
+        }
+        obj = XObj(simu, attrs)
+        I = Interp(repo, extra_builtins={"clear_cached_computed_values": lambda *a: None})
+        try:
+            I.call_function(f, [meshes[3]], self_obj=obj)
+        except XRaise as e:
+            r.fail(f.qualname + ".setter", "mesh-index", f.file, f.lineno, "_Simu.mesh.setter", f"raises {e}")
+            continue
+        lst = obj.attrs[simu.mangle("__listMesh")]
+        idx = obj.attrs[simu.mangle("__indexMesh")]
+        ok = isinstance(idx, int) and 0 <= idx < len(lst) and lst[idx] is meshes[3] and obj.attrs[simu.mangle("__mesh")] is meshes[3]
+        if ok and not any(k == 3 and o is obj for k, o in observed):
+            r.fail(f.qualname + ".setter", "new-mesh-not-observed", f.file, f.lineno, "_Simu.mesh.setter", "the simulation does not register itself as an observer of the assigned mesh (only the constructor's mesh is observed): moving / re-coordinating the new mesh later does not raise Need_Update, the matrices of the old geometry are reused")
+        elif ok:
+            r.ok(f"history of 3 meshes, mesh {current} current: the new mesh is entry {idx}, current and observed")
+        else:
+            r.fail(f.qualname + ".setter", "mesh-index", f.file, f.lineno, "_Simu.mesh.setter", f"history of 3 meshes with mesh {current} current (an earlier iteration was restored): after the assignment indexMesh = {idx!r} designates {'mesh ' + str(lst[idx].attrs.get('tag')) if isinstance(idx, int) and 0 <= idx < len(lst) else 'nothing'} of a history of {len(lst)}, not the assigned mesh: Save_Iter records that index, restoring the iteration later loads another mesh")
